@@ -622,6 +622,18 @@ class Interp:
         return cache[id(node)]
 
     def call_function(self, fv, args, kwargs):
+        if getattr(fv, 'memoized', False):
+            from .dsl import _vkey
+            key = (id(fv.node), _vkey(list(args)),
+                   _vkey({k: kwargs[k] for k in sorted(kwargs)}))
+            cache = self.__dict__.setdefault('default_cache', {})
+            if key not in cache:
+                fv.memoized = False
+                try:
+                    cache[key] = self.call_function(fv, args, kwargs)
+                finally:
+                    fv.memoized = True
+            return cache[key]
         env = self.bind_args(fv, args, kwargs)
         if isinstance(fv.node, ast.Lambda):
             return self.eval(fv.node.body, env)
@@ -685,10 +697,20 @@ class Interp:
             self.exec_toplevel(st, env, env.module, a.asname or a.name)
 
     def st_FunctionDef(self, st, env):
-        if st.decorator_list:
-            raise Unsupported('decorated function %s' % st.name)
-        env.vars[st.name] = FuncV(st, env.module,
-                                  closure=env if env.func else None)
+        memoized = False
+        for d in st.decorator_list:
+            # functools.lru_cache / functools.cache (with or without
+            # arguments): same arguments -> the SAME result object
+            t = d.func if isinstance(d, ast.Call) else d
+            nm = t.attr if isinstance(t, ast.Attribute) else \
+                (t.id if isinstance(t, ast.Name) else None)
+            if nm in ('lru_cache', 'cache'):
+                memoized = True
+            else:
+                raise Unsupported('decorated function %s' % st.name)
+        fv = FuncV(st, env.module, closure=env if env.func else None)
+        fv.memoized = memoized
+        env.vars[st.name] = fv
 
     def st_ClassDef(self, st, env):
         env.vars[st.name] = self.build_class(st, env)
